@@ -64,9 +64,15 @@ pub fn arb_amp() -> impl Strategy<Value = Amp> {
         s
     });
     let garb = (0u32..3_000_000, prop_oneof![1u16..64, 20u16..23, 64u16..1500], 3u8..40).prop_map(|(at_us, size, host)| Garbage { at_us, size, host });
-    (arb_xfer(g), prop::collection::vec(spoof, 0..6), prop::collection::vec(garb, 0..8), prop_oneof![Just(0u16), 0u16..16_000], any::<bool>()).prop_map(
-        |(mut x, spoofs, garbage, flight_pad, heavy_loss)| {
+    (arb_xfer(g), prop::collection::vec(spoof, 0..6), prop::collection::vec(garb, 0..8), prop_oneof![Just(0u16), 0u16..16_000], any::<bool>(), prop::option::weighted(0.3, (0u32..1_500_000, 0u8..30))).prop_map(
+        |(mut x, spoofs, garbage, flight_pad, heavy_loss, server_close)| {
             x.net.srv.flight_pad = flight_pad;
+            // a server application that gives up on the connection, possibly while its flight is still held
+            // back by the limit: the CONNECTION_CLOSE counts like everything else
+            if let Some((at_us, reason_len)) = server_close {
+                x.server.ops.push(TimedOp { at_us, op: AuxOp::Close { code: 7, reason_len } });
+                x.server.ops.sort_by_key(|o| o.at_us);
+            }
             x.net.mtu_steps.clear();
             // known finding (zero-length server CIDs + Retry duplicate the connection), excluded by construction
             if x.net.server_ep.cid_len == 0 {
@@ -250,7 +256,10 @@ pub fn case(a: &Amp) -> CaseOut {
         ids.dedup();
         ids.len()
     };
-    if server_conns > 1 + big_hellos {
+    // (once a server application has closed and the connection has drained, a late copy of the client's
+    // Initial legitimately starts a new one)
+    let server_closes = x.server.ops.iter().any(|o| matches!(o.op, AuxOp::Close { .. }));
+    if server_conns > 1 + big_hellos && !server_closes {
         return CaseOut::fail(
             "c07/unexpected-connections",
             format!("{server_conns} server connections exist but only 1 genuine client and {big_hellos} crafted Initials of >= 1200 bytes were sent"),
